@@ -4,6 +4,7 @@
 package harness
 
 import (
+	_ "time/tzdata"
 	"encoding/json"
 	"fmt"
 	iofs "io/fs"
@@ -96,7 +97,7 @@ type SimKnobs struct {
 	OffsetMs int64    `json:"offset_ms"`
 	Chunks   int      `json:"write_chunks"`
 	Delay    int      `json:"write_delay"`
-	TZ       int      `json:"tz"` // 0 UTC, 1 +05:30, 2 -08:00
+	TZ       int      `json:"tz"` // 0 UTC, 1 +05:30, 2 -08:00, 3 America/New_York (daylight saving)
 	Watch    []string `json:"watch,omitempty"`
 	Stdio    int      `json:"stdio,omitempty"` // what stdout is connected to: 0 terminal, 1 pipe, 2 regular file
 	Strategy int      `json:"strategy,omitempty"` // 0 tape picks, 1 PCT-style priorities with change points
@@ -139,7 +140,18 @@ func genTape(rt *rapid.T, maxLen int, dense bool) []int {
 	return tape
 }
 
-var zones = []*time.Location{time.UTC, time.FixedZone("IST", 5*3600+1800), time.FixedZone("PST", -8*3600)}
+var zones = []*time.Location{time.UTC, time.FixedZone("IST", 5*3600+1800), time.FixedZone("PST", -8*3600), dstZone()}
+
+// dstZone is a zone whose UTC offset changes twice a year (zone 3: only scenarios that ask for
+// it use it). The simulated clock starts on 2000-01-01; New York left standard time on
+// 2000-04-02 07:00 UTC and returned to it on 2000-10-29 06:00 UTC.
+func dstZone() *time.Location {
+	loc, err := time.LoadLocation("America/New_York") // from the embedded time/tzdata if the system has none
+	if err != nil {
+		panic("harness: no time zone database: " + err.Error())
+	}
+	return loc
+}
 
 // firstHarnessPanic keeps the first machinery panic of the process: rapid's
 // shrinking would otherwise bury it under follow-up failures.
